@@ -2466,12 +2466,22 @@ func lemmaForwardSession(raw *rawEnvelope) (e *Session, e3 *Session, accepted bo
 //@   checks [C05] @sentonlywhenmatched !result ==> nsent(channel.processingCmds.elem) == 0
 //@   ensures [C05] result ==> respCmd != nil
 
+// ProcessCommand is a send operation too (C06). What it emits depends on the
+// sender it hands to processCommand - the channel itself - which processCommand's
+// own contract cannot know (it sees an interface): the body of processCommand is
+// therefore verified in place here (`inline`), where the sender is the concrete
+// channel and (*channel).SendRequestCommand's gated contract applies.
 //@ func (*channel).ProcessCommand :: (c, ctx, reqCmd) (result0, result1)
-//@   props C05
+//@   props C05 C06
 //@   requires c != nil && c.processingCmds != nil && ctx != nil
 //@   panics only-if reqCmd == nil || reqCmd.ID == ""
-//@   modifies *c.processingCmds
+//@   inline (*channel).processCommand
+//@   ghostinit anychan.ResponseCommand : chankey(v) == reqCmd.ID && neverclosed(v)
+//@   chaninv-local anychan.ResponseCommand : v != nil && v.ID == chankey(ch)
+//@   modifies *c.processingCmds, c.transport.nSent, c.transport.lastSent, c.transport.nSentSes, c.transport.lastSes, c.transport.connected, c.transport.stage, c.transport.offerEnc, c.transport.offerComp, c.transport.offerSchemes, c.transport.confEnc, c.transport.confComp
 //@   ensures [C05] err == nil ==> result0 != nil && result0.ID == reqCmd.ID
+//@   ensures [C06] @onlyestablished !(old(transportOK(c)) && old(c.state) == SessionStateEstablished) ==> result1 != nil
+//@   ensures [C06] @nothingemitted !(old(transportOK(c)) && old(c.state) == SessionStateEstablished) ==> c.transport.nSent == old(c.transport.nSent)
 
 // ---- the receiver goroutine (one hop of C04; C05 unmatched responses; C06 streams) ----
 
